@@ -214,6 +214,15 @@ def run(P, R, tier):
                 okr = any(d[0] == 'expr' and 'right_df.geometry.name' in norm(d[1]) for d in ge)
     R.check(okr, 'C20.e', sj, None, 'sjoin(how="right") wraps the result with the right frame\'s geometry as active geometry',
             'sjoin(how="right") wraps the result with the default (first) geometry column, which is a left-over column of the left frame', construct='GeoDataFrame(joined, geometry=right geometry)')
+    pk = P.func('spatialpandas.dask', 'DaskGeoDataFrame.pack_partitions_to_parquet')
+    okpk = False
+    for s_ in walk_own(pk.node):
+        if isinstance(s_, ast.Return) and isinstance(s_.value, ast.Call) and norm(s_.value.func) == 'read_parquet_dask':
+            g_ = astq.arg_of(s_.value, kw='geometry')
+            okpk = g_ is not None and norm(g_) in ('self.geometry.name', 'self._meta.geometry.name')
+    R.check(okpk, 'C20.e', pk, None, 'the frame returned by pack_partitions_to_parquet is re-read with the input\'s active geometry',
+            'pack_partitions_to_parquet re-reads the dataset without geometry=: the returned frame falls back to the first geometry column',
+            construct='return read_parquet_dask(path, geometry=self.geometry.name, ...)')
     cm = GDF.members.get('_constructor_from_mgr')
     okc = cm is not None and 'GeoDataFrame._from_mgr' in norm(cm[1].node) and 'pd.DataFrame._from_mgr' in norm(cm[1].node)
     R.check(okc, 'C20.e', cm[1] if cm else ('spatialpandas/geodataframe.py', 'GeoDataFrame'), None,
